@@ -69,8 +69,60 @@ def roundtrip(tree, mode="direct"):
     return Tree.from_dict(d)
 
 
+class NotApplicable(Exception):
+    """the edit is outside the grammar in this state (only arises when a history is shrunk or replayed elsewhere)"""
+
+
+def _clone_handle(tree, h):
+    lab = tree.labels
+    return h in lab and lab[h] != tree.outlier_node_name
+
+
+def applicable(tree, e, data):
+    """Side conditions of the grammar, checked through the public accessors only."""
+    op = e[0]
+    lab = tree.labels
+    if op in ("NewClone", "NewCloneAdd"):
+        kids = list(e[1])
+        pts = list(e[2]) if op == "NewClone" else [e[2]]
+        if not labels_contiguous(tree) or any(p in lab for p in pts) or len(set(pts)) != len(pts):
+            return False
+        if not all(_clone_handle(tree, h) for h in kids):
+            return False
+        nodes = [lab[h] for h in kids]
+        return len(set(nodes)) == len(nodes) and all(n in tree.roots for n in nodes)
+    if op == "AddPoint":
+        return e[1] not in lab and (e[2] is None or _clone_handle(tree, e[2]))
+    if op == "MovePoint":
+        i, dst = e[1], e[2]
+        if i not in lab or tree.get_data_len(lab[i]) <= 1:
+            return False
+        return dst is None or (dst != i and _clone_handle(tree, dst))
+    if op == "PruneRegraft":
+        if not _clone_handle(tree, e[1]) or len(tree.nodes) < 2:
+            return False
+        if e[2] is None:
+            return True
+        return _clone_handle(tree, e[2]) and lab[e[2]] not in descendants_handles(tree, lab[e[1]])
+    if op == "SubtreeResample":
+        x, spec = e[1], e[2]
+        if x is None:
+            pts = tree_points(tree)
+        else:
+            if not _clone_handle(tree, x):
+                return False
+            pts = [d.idx for n in descendants_handles(tree, lab[x]) for d in tree.get_data(n)] + [d.idx for d in tree.outliers]
+        return sorted(pts) == sorted(spec_points_(spec)) and len(pts) > 0
+    if op == "ToFromDict":
+        return all(tree.get_data_len(n) > 0 for n in tree.nodes)
+    return op in ("Relabel", "Copy", "Update")
+
+
 def apply_edit(tree, e, data):
-    """Apply one edit the way the samplers do; returns the resulting tree (may be a new object). May raise."""
+    """Apply one edit the way the samplers do; returns the resulting tree (may be a new object).
+    Raises NotApplicable when the edit is outside the grammar here; any other exception comes from phyclone."""
+    if not applicable(tree, e, data):
+        raise NotApplicable(repr(e))
     op = e[0]
     if op == "NewClone":
         tree.create_root_node(children=[node_of(tree, h) for h in e[1]], data=[data[i] for i in e[2]])
@@ -116,7 +168,6 @@ def apply_edit(tree, e, data):
         for dpt in tree.outliers:
             tree.remove_data_point_from_outliers(dpt)
             sub.add_data_point_to_outliers(dpt)
-        assert sorted(tree_points(sub)) == sorted(spec_points_(spec)), "rebuilt spec must hold the extracted data"
         rebuilt = roundtrip(build_tree(spec, data))  # particles hold trees in dictionary form
         new = tree.copy()
         new.add_subtree(rebuilt, parent=parent)
@@ -246,12 +297,18 @@ def gen_history(rng, data, n_start, length, weights=None):
     tries = 0
     while len(hist) < length and tries < 20 * length:
         tries += 1
-        e = gen_edit(rng, tree, data, unused, weights)
+        try:
+            e = gen_edit(rng, tree, data, unused, weights)
+        except Exception:  # the tree is corrupted: the replay's oracles report it
+            break
         if e is None:
             continue
-        tree = apply_edit(tree, e, data)
-        unused -= set(delta_points(e, None))
         hist.append(e)
+        try:
+            tree = apply_edit(tree, e, data)
+        except Exception:  # a grammar edit raised (or corrupted the tree so that generation cannot go on): stop here,
+            break          # the replay with its oracles decides what to report
+        unused -= set(delta_points(e, None))
     return spec, hist
 
 
@@ -315,10 +372,20 @@ def compare_trees(a, b, tol, what_b="rebuild", labels=False):
     return None
 
 
+def safe_abs(tree):
+    """abs_impl, with a crash inside it (e.g. a payload that is None) reported as a disagreement of the views"""
+    try:
+        return abs_impl(tree)
+    except AbsError:
+        raise
+    except Exception as ex:
+        raise AbsError("abs_impl could not read the tree: %s: %s" % (type(ex).__name__, ex))
+
+
 def check_state(tree, data, expected_pts, tol):
     """(C07 problem or None, C06 problem or None) for one tree."""
     try:
-        abs_impl(tree)
+        safe_abs(tree)
     except AbsError as ex:
         return "views disagree: %s" % ex, None
     pts = tree_points(tree)
@@ -347,6 +414,25 @@ def snapshot_equal(tree, snap):
     return np.array_equal(tree.data_log_likelihood, snap[2])
 
 
+def roundtrip_dict(d):
+    from phyclone.tree import Tree
+
+    return Tree.from_dict(d)
+
+
+def snapshot_equal_tol(tree, snap, tol):
+    if tree_spec(tree) != snap[0]:
+        return False
+    na = node_arrays(tree)
+    if set(na) != set(snap[1]):
+        return False
+    for k in na:
+        for j in (0, 1):
+            if not float(np.max(np.abs(na[k][j] - snap[1][k][j]))) <= tol:
+                return False
+    return len(tree.roots) == 0 or float(np.max(np.abs(tree.data_log_likelihood - snap[2]))) <= tol
+
+
 def replay(spec, hist, data, tol_unit=1e-8, stop_at_first=True):
     """Run a history on the real tree with the oracles after every edit.
     Returns (trees-after-each-edit or None, failure) with failure = None | (prop, step, what)."""
@@ -357,7 +443,15 @@ def replay(spec, hist, data, tol_unit=1e-8, stop_at_first=True):
     for k, e in enumerate(hist):
         before = tree
         snap = snapshot(tree) if e[0] in ("Copy", "MovePoint", "PruneRegraft") else None
-        tree = apply_edit(tree, e, data)
+        try:
+            tree = apply_edit(tree, e, data)
+        except NotApplicable:
+            raise
+        except Exception as ex:
+            import traceback
+
+            where = [l.strip() for l in traceback.format_exc().splitlines() if "/phyclone/" in l]
+            return None, ("EXC", k, "%s: %s%s" % (type(ex).__name__, str(ex)[:120], (" @ " + where[-1][:140]) if where else ""))
         if snap is not None:
             kept.append((k, before, snap))
         expected += delta_points(e, None)
@@ -368,7 +462,7 @@ def replay(spec, hist, data, tol_unit=1e-8, stop_at_first=True):
             return None, ("C06", k, c06)
         for (k0, old, sn) in kept[-3:]:
             if old is not tree and not snapshot_equal(old, sn):
-                return None, ("C06", k, "the tree copied at step %d changed when its copy was edited" % k0)
+                return None, ("C06", k, "copy aliasing: the tree copied before edit %d changed when its copy was edited" % k0)
     return tree, None
 
 
@@ -382,7 +476,7 @@ def shrink(spec, hist, data, prop):
             cand = cur[:j] + cur[j + 1 :]
             try:
                 _, f = replay(spec, cand, data)
-            except Exception:
+            except Exception:  # NotApplicable: the shorter history left the grammar
                 continue
             if f is not None and f[0] == prop:
                 cur = cand
@@ -514,14 +608,7 @@ def history_job(args):
         ops[e[0]] = ops.get(e[0], 0) + 1
     out = {"seed": seed, "n_points": n_points, "length": len(hist), "ops": ops, "ns": case["ns"], "failure": None,
            "spec": case["spec"], "final": None, "coq": None}
-    try:
-        tree, f = replay(case["spec"], hist, case["data"])
-    except Exception as ex:  # the grammar only emits edits the code accepts: an exception is a finding too
-        import traceback
-
-        out["failure"] = ("EXC", -1, "%r\n%s" % (ex, traceback.format_exc()[-1500:]))
-        out["hist"] = hist
-        return out
+    tree, f = replay(case["spec"], hist, case["data"])
     if f is not None:
         small, f2 = shrink(case["spec"], hist, case["data"], f[0])
         out["failure"] = f2 or f
@@ -595,4 +682,206 @@ def sampler_job(args):
 
         out["exception"] = "%s: %s @ %s" % (type(ex).__name__, ex, traceback.format_exc().strip().splitlines()[-3].strip()[:120])
     out["shapes"] = len(shapes)
+    return out
+
+
+# ---------------------------------------------------------------- C15: dictionary round trips and traces
+def coq_name(k):
+    if k == "root":
+        return "NRoot"
+    if k == -1:
+        return "NOut"
+    return "(NClone %d)" % int(k)
+
+
+def coq_tdict(d):
+    """Coq literal (Model/DictForm.v tdict) of a real tree.to_dict()"""
+    edges = "[" + "; ".join("(%d, %d)" % (a, b) for a, b in d["graph"]) + "]" if len(d["graph"]) else "(@nil (nat * nat))"
+    n2i = "[" + "; ".join("(%s, %d)" % (coq_name(k), v) for k, v in d["node_idx"].items()) + "]"
+    i2n = "[" + "; ".join("(%d, %s)" % (k, coq_name(v)) for k, v in d["node_idx_rev"].items()) + "]"
+    data = "[" + "; ".join("(%s, %s)" % (coq_name(k), dps(x.idx for x in v)) for k, v in d["node_data"].items()) + "]" if d["node_data"] else "(@nil (name * list dp))"
+    last = d["node_last_added_to"]
+    lastc = "WNone" if last is None else ("WOut" if last == -1 else "(WNode %d)" % int(last))
+    return "(mkD %s %s %s %s %s)" % (edges, n2i, i2n, data, lastc)
+
+
+DICT_HEADER = (
+    "From PV Require Import Model.LTreeConv Model.DictForm.\nOpen Scope nat_scope.\n"
+    "Definition chk_labels (t : ltree) (hl : list (nat * nat)) : bool :=\n"
+    "  forallb (fun p => match hlbl (fst p) t with Some l => l =? snd p | None => false end) hl.\n"
+    "Definition chk_last (t : ltree) (w : lastw) : bool :=\n"
+    "  match LTree.last t, w with WNone, WNone => true | WOut, WOut => true | WNode a, WNode b => a =? b | _, _ => false end.\n"
+)
+
+
+def roundtrip_job(args):
+    """A random history; at several points: to_dict -> (direct|pickle|gzip) -> from_dict, compare everything incl. labels and
+    node_last_added_to, then continue the SAME random suffix on both copies and compare after every edit."""
+    import random
+
+    seed, n_points, length, want_coq = args
+    case = make_case(seed, n_points, length)
+    data, spec, hist = case["data"], case["spec"], case["hist"]
+    rng = random.Random(seed + 1)
+    out = {"seed": seed, "n_points": n_points, "length": len(hist), "roundtrips": 0, "holes": 0, "outlier_only": 0, "suffix_edits": 0, "failure": None, "coq": [], "modes": {}}
+    tree = build_tree(spec, data)
+    tol = 1e-8 * max(1, len(hist))
+    points = [k for k in range(len(hist) + 1) if rng.random() < 0.3 or k == len(hist)]
+    old = None
+    try:
+        for step in range(len(hist) + 1):
+            if step in points:
+                mode = rng.choice(["direct", "pickle", "gzip"])
+                out["modes"][mode] = out["modes"].get(mode, 0) + 1
+                d = tree.to_dict()
+                idx = sorted(tree._graph.node_indices())
+                holes = idx != list(range(len(idx)))
+                out["holes"] += holes
+                out["outlier_only"] += (len(tree.nodes) == 0 and len(tree.outliers) > 0)
+                back = roundtrip(tree, mode)
+                out["roundtrips"] += 1
+                try:
+                    safe_abs(back)
+                    problem = compare_trees(back, tree, tol, what_b="the original", labels=True)
+                except AbsError as ex:
+                    problem = "restored tree's views disagree: %s" % ex
+                if not problem and old is not None:
+                    # the dictionary taken earlier is a snapshot: edits made to the tree since must not show in it
+                    try:
+                        then = roundtrip_dict(old[0])
+                        if not snapshot_equal_tol(then, old[1], tol):
+                            problem = "a dictionary taken %d edits ago no longer restores to the tree it was taken from" % (step - old[2])
+                    except Exception as ex:
+                        problem = "a dictionary taken earlier no longer restores: %s: %s" % (type(ex).__name__, ex)
+                old = (d, snapshot(tree), step)
+                if problem:
+                    out["failure"] = ("roundtrip:%s:%s" % (mode, "holes" if holes else "dense"), problem, hist[:step], None)
+                    return out
+                if want_coq and len(out["coq"]) < 3 and (holes or rng.random() < 0.5):
+                    hm = handle_map(back)
+                    pairs = "[" + "; ".join("(%d, %d)" % (h, int(n)) for h, n in hm.items()) + "]" if hm else "(@nil (nat * nat))"
+                    last = d["node_last_added_to"]
+                    lastc = "WNone" if last is None else ("WOut" if last == -1 else "(WNode %d)" % int(last))
+                    item = "match from_dict (Sconv %d %d) (cprior %d %d) (cone %d %d) %s with Some t => chk_tree t %s && chk_labels t %s && chk_last t %s | None => false end" % (
+                        case["ns"], case["grid"], case["ns"], case["grid"], case["ns"], case["grid"], coq_tdict(d), coq_obs(back), pairs, lastc)
+                    out["coq"].append(item)
+                # same suffix on both copies (a few edits), compared up to node names
+                a, b = tree.copy(), back
+                unused = set(range(len(data))) - set(tree_points(tree))
+                srng = random.Random(seed * 31 + step)
+                for _ in range(4):
+                    e = gen_edit(srng, a, data, unused)
+                    if e is None:
+                        continue
+                    a = apply_edit(a, e, data)
+                    b = apply_edit(b, e, data)
+                    unused -= set(delta_points(e, None))
+                    out["suffix_edits"] += 1
+                    problem = compare_trees(b, a, tol, what_b="the original after the same edits")
+                    if problem:
+                        out["failure"] = ("suffix:%s:%s" % (mode, e[0]), problem, hist[:step], e)
+                        return out
+            if step < len(hist):
+                tree = apply_edit(tree, hist[step], data)
+    except Exception as ex:
+        import traceback
+
+        out["failure"] = ("exception", "%r %s" % (ex, traceback.format_exc()[-800:]), hist, None)
+    if out["coq"]:
+        out["coq"] = (coq_data_defs(case["vals"]), out["coq"])
+    return out
+
+
+def trace_job(args):
+    """One real run_phyclone_chain on tiny simulated data; returns the checks' outcome."""
+    import contextlib
+    import gzip as gz
+    import io
+    import os as _os
+    import pickle as pk
+    import tempfile as tf
+
+    import numpy as np
+    from phyclone.process_trace import create_main_run_output
+    from phyclone.run import run_phyclone_chain
+    from phyclone.tests.simulate import simulate_binomial_data
+    from phyclone.tree import FSCRPDistribution, Tree, TreeJointDistribution
+
+    seed, n_points, num_iters, thin, burnin, conc_update, outlier_prob, proposal, particles, max_time, subtree_prob = args
+    out = {"args": list(args), "failure": None, "iters": None, "entries": 0, "crash": None, "alphas_vary": False}
+    drng = np.random.default_rng(seed)
+    ps = [drng.choice([0.1, 0.3, 0.5, 0.9]) for _ in range(n_points)]
+    data = [simulate_binomial_data(i, 100, [ps[i], min(0.99, ps[i] * 0.8)], drng, outlier_prob) for i in range(n_points)]
+
+    def chain(n_it):
+        rng = np.random.default_rng(seed + 7)
+        with contextlib.redirect_stdout(io.StringIO()):
+            return run_phyclone_chain(burnin, conc_update, 1.5, data, max_time, n_it, particles, 1, 1, outlier_prob, 100, proposal, 0.5, rng,
+                                      ["s0", "s1"], thin, 0, subtree_prob)
+
+    try:
+        res = chain(num_iters)
+        res0 = chain(0)
+    except Exception as ex:  # crashes belong to C19
+        out["crash"] = "%s: %s" % (type(ex).__name__, str(ex)[:100])
+        return out
+    trace = res["trace"]
+    iters = [e["iter"] for e in trace]
+    out["iters"] = iters
+    out["entries"] = len(trace)
+    executed = num_iters if max_time == float("inf") else min(num_iters, 1)
+    expect = [0] + [i for i in range(executed) if i % thin == 0]
+    if iters != expect:
+        out["failure"] = ("iters", "recorded iterations %r, expected %r" % (iters, expect))
+        return out
+    # file round trip through the writer / the readers' way of opening it
+    fd, path = tf.mkstemp(suffix=".pkl.gz")
+    _os.close(fd)
+    try:
+        create_main_run_output(None, path, {0: res})
+        with gz.GzipFile(path, "rb") as fh:
+            back = pk.load(fh)
+    finally:
+        _os.unlink(path)
+    btrace = back[0]["trace"]
+    if len(btrace) != len(trace) or [d.idx for d in back[0]["data"]] != [d.idx for d in data] or back[0]["samples"] != ["s0", "s1"]:
+        out["failure"] = ("file", "trace file does not hold the run's entries/data/samples")
+        return out
+    alphas = []
+    allpts = list(range(n_points))
+    for k, (e, be) in enumerate(zip(trace, btrace)):
+        if set(e.keys()) != {"iter", "time", "alpha", "log_p_one", "tree"}:
+            out["failure"] = ("entry-keys", "entry %d has keys %r" % (k, sorted(e.keys())))
+            return out
+        if (be["iter"], be["alpha"], be["log_p_one"]) != (e["iter"], e["alpha"], e["log_p_one"]):
+            out["failure"] = ("file", "entry %d changed in the file" % k)
+            return out
+        alphas.append(e["alpha"])
+        for src, dd in (("memory", e["tree"]), ("file", be["tree"])):
+            t = Tree.from_dict(dd)
+            try:
+                safe_abs(t)
+            except AbsError as ex:
+                out["failure"] = ("entry-tree", "entry %d (%s): views disagree: %s" % (k, src, ex))
+                return out
+            if tree_points(t) != allpts:
+                out["failure"] = ("entry-data", "entry %d (%s) holds points %r" % (k, src, tree_points(t)))
+                return out
+            lp1 = float(TreeJointDistribution(FSCRPDistribution(e["alpha"])).log_p_one(t))
+            if not abs(lp1 - e["log_p_one"]) <= 1e-8 * max(1.0, abs(lp1)):
+                out["failure"] = ("log_p_one", "entry %d (%s): recorded log_p_one %.12g, recomputed under recorded alpha %.6g: %.12g" % (k, src, e["log_p_one"], e["alpha"], lp1))
+                return out
+            c07, c06 = check_state(t, data, allpts, 1e-7)
+            if c07 or c06:
+                out["failure"] = ("entry-rebuild", "entry %d (%s): %s" % (k, src, c07 or c06))
+                return out
+    # entry 0 is the post-burn-in state: same seed with num_iters = 0 records exactly it
+    t0a, t0b = Tree.from_dict(trace[0]["tree"]), Tree.from_dict(res0["trace"][0]["tree"])
+    if len(res0["trace"]) != 1 or tree_spec(t0a) != tree_spec(t0b) or trace[0]["alpha"] != 1.5 or trace[0]["log_p_one"] != res0["trace"][0]["log_p_one"]:
+        out["failure"] = ("entry0", "entry 0 is not the post-burn-in state recorded under the initial concentration")
+        return out
+    if not conc_update and any(a != 1.5 for a in alphas):
+        out["failure"] = ("alpha", "alpha changed without concentration update: %r" % alphas)
+        return out
+    out["alphas_vary"] = len(set(alphas)) > 1
     return out
